@@ -21,7 +21,7 @@ ID = "C17"
 FACTS = ["Annot"]
 COQ_HEADER = "From SPV Require Import CorrDefs.CorrC17."
 COQ_CASE_TYPE = "case"
-RULE = ("tree: 1-5 fields drawn from the CLI type grammar (int float str bool Enum, Optional[T], List[T], Tuple fixed and "
+RULE = ("corpus/C17 (minimised past failures) first. tree: 1-5 fields drawn from the CLI type grammar (int float str bool Enum, Optional[T], List[T], Tuple fixed and "
         "variadic, Union of primitives, nested dataclass, Optional[nested], Optional of list/tuple/union; with lower weight "
         "List[Union], List[Optional], List[Tuple], Tuple[Union,..], Dict) plus optional InitVar / ClassVar / init=False / "
         "cmd=False members; every tree is written to 16 real modules = {typing generics, builtin generics, PEP 604 bars, "
@@ -447,10 +447,21 @@ def texp_ok_for_model(t):
     return True
 
 
+def _corpus():
+    """corpus/C17/*.json: minimised past failures (kept after the repair), replayed first on every run"""
+    import glob
+    import os
+    d = os.path.join(os.path.dirname(os.path.dirname(os.path.dirname(os.path.abspath(__file__)))), "corpus", "C17")
+    out = []
+    for f in sorted(glob.glob(os.path.join(d, "*.json"))):
+        out += json.load(open(f))["cases"]
+    return out
+
+
 def gen(tier, seed):
     rng = random.Random(f"C17-{seed}")
     quick = tier == "quick"
-    cases = []
+    cases = _corpus()
     # ---- trees: every shape leads one tree, then random trees
     lead = list(SHAPES)
     n_tree = len(lead) + 10 if quick else 800
